@@ -302,3 +302,7 @@ func vPathField(items ...string) []byte {
 	}
 	return b
 }
+
+func f(id [2]byte, data []byte) hotline.Field { return hotline.NewField(id, data) }
+
+var c05Name = f(hotline.FieldFileName, []byte("target.txt"))
